@@ -1,7 +1,6 @@
 package rt
 
 import (
-	"sort"
 	"bufio"
 	"bytes"
 	"context"
@@ -14,6 +13,7 @@ import (
 	"os"
 	"reflect"
 	"runtime/debug"
+	"sort"
 	"strings"
 	"sync"
 	"sync/atomic"
